@@ -60,6 +60,7 @@ type gen struct {
 	paged   bool
 	focus   map[string]string
 	plain   bool // pagemerge family: puts without TTL and deletes of existing keys only, with merges
+	putOnly bool // pagemerge family, phase after a Merge: puts only
 	flip    bool // the second half of a twin: every bucket choice is moved to the next bucket
 	images  int
 	seed0   int64
@@ -159,7 +160,7 @@ func (g *gen) kvWrite(t *hx.Tx) {
 	if g.plain {
 		// only operations that keep the tree's count of valid keys exact: a put
 		// without TTL, or the delete of a key that is there
-		if _, err := t.T.Get(b, k); err == nil && g.r.Intn(3) == 0 {
+		if _, err := t.T.Get(b, k); err == nil && !g.putOnly && g.r.Intn(3) == 0 {
 			t.Delete(b, k)
 		} else {
 			t.Put(b, k, g.val(), 0)
@@ -320,8 +321,21 @@ func (g *gen) histKV() {
 		if g.r.Intn(6) == 0 {
 			g.s.Obs()
 		}
-		if g.plain && mode != nutsdb.HintBPTSparseIdxMode && g.r.Intn(8) == 0 {
-			g.s.MergeObs(dir + "-shadow")
+		if g.plain {
+			// cycles of: reopen - puts and deletes - Merge - puts only (keys
+			// deleted before the Merge come back after it) - reads
+			switch i % 14 {
+			case 6:
+				g.s.MergeObs(dir + "-shadow")
+				g.putOnly = true
+			case 13:
+				g.putOnly = false
+				g.s.Close()
+				if g.s.Open() != nil {
+					return
+				}
+				g.s.Obs()
+			}
 		}
 		if !g.plain && g.r.Intn(12) == 0 {
 			g.s.Close()
